@@ -230,6 +230,11 @@ def feature_circuits():
     out.append(("pickled_mixed_types", pickle.loads(pickle.dumps(mixed))))
     out.append(("deepcopied_unused_input_dead_gate", copy.deepcopy(build(["a", "b", "c"], [("g", G.AND, ("a", "b")), ("dead", G.OR, ("a", "g"))], ["g"]))))
     out.append(("deepcopied_bench_types", copy.deepcopy(build(["a", "b"], [("n", G.NOT, ("a",)), ("g", G.AND, ("n", "b")), ("o", G.OR, ("g", "a")), ("x", G.NXOR, ("o", "n"))], ["x", "g"]))))
+    # pseudo-unary gates whose *ignored* operand is exactly a double negation / a buffer of a buffer
+    add("lnot_rnot_ignoring_a_double_negation", ["s", "y"],
+        [("n1", G.NOT, ("y",)), ("n2", G.NOT, ("n1",)), ("l", G.LNOT, ("s", "n2")), ("r", G.RNOT, ("n2", "s")), ("o", G.AND, ("l", "r", "y"))], ["o", "l"])
+    add("liff_riff_ignoring_a_double_buffer", ["s", "y"],
+        [("b1", G.IFF, ("y",)), ("b2", G.IFF, ("b1",)), ("l", G.LIFF, ("s", "b2")), ("r", G.RIFF, ("b2", "s")), ("o", G.OR, ("l", "r", "y"))], ["o", "r"])
     # labels are arbitrary strings: the empty one (falsy), ones that contain what other modules print or split on
     # (", ", "@", "#", a blank), digits only, equal up to case, not ASCII.  Gates that print alike are different gates:
     # AND('a', 'b, c') vs AND('a, b', 'c'); '' and '#' compute the same function by different structure.
